@@ -811,6 +811,9 @@ def inline_module_helpers(fx, body, max_nodes=400, methods=False):
 
                     if clos:
                         hv = beta(hv)
+                        # a closure that was only ever called is now gone from the body: its binding would show its body twice
+                        still = {x.get("local") for x, _ in walk(hv) if x.get("k") == "Path" and x.get("res") == "local"}
+                        stmts = [st for st in stmts if not (st["pat"].get("p") == "Bind" and st["pat"]["local"] in clos and st["pat"]["local"] not in still)]
                     return {"k": "Block", "block": {"stmts": stmts, "expr": hv}, "ty": out.get("ty"), "span": out.get("span"), "inlined_from": d, "inlined_id": _remember_inlined_args(out.get("args", []))}
         return out
 
